@@ -67,7 +67,7 @@ func prefixSpec(nontrivial string, guards ...guard) *propSpec {
 		level: "exploration",
 		rule: "each history fixes a pool (/56-/64, /60-/64, /62-/64, /64-/64, /48-/52, /120-/124, ...), 1-6 clients (every DUID kind incl. opaque) and 20-60 messages (SOLICIT/REQUEST/RENEW/REBIND, 0-3 IA_PD x 0-3 IAPrefix hints from {none, length-only, length 0, own prefix, in-pool free/other's/own block, out-of-pool, longer than the allocation size, length > 128}, 0-2 relay layers, retransmissions) sent as wire bytes through HandleMsg6 into the plugin obtained from Plugin.Setup6; a per-client prefix model decides every reply and fresh clients drain the pool at the end (conservation). " + nontrivial,
 		assumptions: assume("no lease expiry/GC exists in the code: 'for as long as the server runs' = the length of the history", "length-only hints (::/64) are outside C09's obligations"),
-		runs:        []runSpec{{engine: "prefix", qBatches: 32, qCases: 16, tBatches: 128, tCases: 400}, {engine: "prefixconc", race: true, parallel: 8, qBatches: 8, qCases: 12, tBatches: 64, tCases: 100}},
+		runs:        []runSpec{{engine: "prefix", qBatches: 32, qCases: 16, tBatches: 128, tCases: 400}, {engine: "prefixconc", race: true, parallel: 8, qBatches: 8, qCases: 12, tBatches: 64, tCases: 100}, hourRun()},
 		guards:      guards,
 	}
 }
@@ -75,6 +75,17 @@ func prefixSpec(nontrivial string, guards ...guard) *propSpec {
 // wireRun: the real binary over veth (thorough tiers; a small slice in the quick tier of C15)
 func wireRun(qb, tb int) runSpec {
 	return runSpec{engine: "wire", race: false, netns: true, serverBin: true, parallel: 6, qBatches: qb, qCases: 1, tBatches: tb, tCases: 2, stall: 6 * time.Minute}
+}
+
+// wireVarRun: only the environment variants of E-wire (alternate listen port with option values > 255
+// bytes, no CAP_NET_RAW, listen address assigned late): three short-lived servers per case
+func wireVarRun() runSpec {
+	return runSpec{engine: "wirevar", netns: true, serverBin: true, parallel: 4, qBatches: 2, qCases: 1, tBatches: 8, tCases: 2, stall: 6 * time.Minute}
+}
+
+// hourRun: the prefix plugin one hour later (thorough tier only: the wait is real time)
+func hourRun() runSpec {
+	return runSpec{engine: "prefixhour", parallel: 6, tBatches: 6, tCases: 1, stall: 5 * time.Minute}
 }
 
 // raceSlice: a small slice of the concurrent dual-stack workload (-race) for properties whose breaks may
@@ -100,7 +111,7 @@ var specs = map[string]*propSpec{
 		level: "exploration",
 		rule: "each case draws a DHCPv4 and/or DHCPv6 chain over all built-in plugins (any subset, any order, arguments from each plugin's accepted grammar; half of the cases dual-stack in one process), a listener bound to ve0/vf0 or unbound, and a history of 500-700 datagrams mixing stateful client scripts (6 DHCPv4 clients incl. hlen 0, 5 and 16; 4 DHCPv6 clients with IA_PD hints of length 0/64/72/128/200, IA_NA, relayed with client-link-layer option), retransmissions, grammar-generated well-formed and hostile datagrams, mutations (bit/byte flips, truncation, length +-1, duplication, splice, trailers), the empty datagram and 65507-byte datagrams; then one canary request per protocol. It runs in a fresh server process inside the private network namespace (link-level replies are real frames). Oracle: process alive, every datagram's handling returned (a watchdog expiry is a violation only if the goroutine dump shows a handler parked on a lock), canary handled, at most one reply (UDP captures + sniffed frames) per datagram. Non-trivial = history in which the chain produced at least one reply; distinct by (seed, chains)",
 		assumptions: assume("'never blocks forever' is observed as 'returned within a 150 s watchdog for the whole history, or no lock-parked handler in the dump'", "an unbound listener always gets a non-zero receive ifindex, as the kernel delivers once IP_PKTINFO is on"),
-		runs:        []runSpec{{engine: "hostile", netns: true, qBatches: 16, qCases: 3, tBatches: 64, tCases: 40, stall: 6 * time.Minute}, wireRun(0, 12), raceSlice()},
+		runs:        []runSpec{{engine: "hostile", netns: true, qBatches: 16, qCases: 3, tBatches: 64, tCases: 40, stall: 6 * time.Minute}, wireRun(0, 12), raceSlice(), hourRun()},
 		guards:      []guard{{"hostile.replies", 2000, "replies produced"}, {"hostile.canaries_returned", 40, "canaries"}, {"hostile.plugin.prefix", 5, "prefix in chains"}, {"hostile.plugin.range", 5, "range in chains"}, {"hostile.plugin.file", 5, "file in chains"}, {"hostile.chains_dual_stack", 10, "dual-stack chains"}},
 	},
 	"C02": {
@@ -146,7 +157,7 @@ var specs = map[string]*propSpec{
 		level: "exploration",
 		rule: "per case one of 7 plugin chains (empty, option plugins, range, file, a NAK-producing plugin, yiaddr-assigning + mtu/staticroute/autoconfigure, ipv6only+sleep+nbp) in a fresh server process inside the private network namespace (listener bound or unbound, both arrival links): (1) the full matrix of 256 opcodes x 23 message-type shapes (absent, 0..18, 255, two-byte, empty) with random relay/broadcast/ciaddr fields, option 61/82/116 presence; (2) 1500 (quick) / 6000 (thorough) generated datagrams (all header fields, hlen 0..16 and beyond, option table with wrong lengths and lying length bytes, pads) of which a third are mutated (bit/byte flips, truncation at structural boundaries, length +-1, duplication, splice, large trailers). Every UDP write (capture hook) and every sniffed link-level frame counts as a reply. Oracle: answered only if the codec accepts it, op=BOOTREQUEST and type DISCOVER/REQUEST; reply fields/echo/type per the statement, at most one reply. Distinct by (chain, opcode class, type bytes, answered?) plus every distinct answered datagram",
 		assumptions: assume("that a non-nil final response is actually sent is C13's statement", "hlen > 16 is clipped by the codec and only checked for no-crash"),
-		runs:        []runSpec{{engine: "match4", netns: true, parallel: 14, qBatches: 7, qCases: 1, tBatches: 140, tCases: 1, stall: 5 * time.Minute}, wireRun(0, 6), raceSlice()},
+		runs:        []runSpec{{engine: "match4", netns: true, parallel: 14, qBatches: 7, qCases: 1, tBatches: 140, tCases: 1, stall: 5 * time.Minute}, wireRun(0, 6), wireVarRun(), raceSlice()},
 		guards:      []guard{{"match4.replies_to_type_1", 200, "replies to DISCOVER"}, {"match4.replies_to_type_3", 200, "replies to REQUEST"}, {"match4.dropped", 10000, "dropped datagrams"}, {"match4.replies_l2", 20, "link-level replies"}},
 	},
 	"C12": {
@@ -201,7 +212,7 @@ var specs = map[string]*propSpec{
 		level: "exploration",
 		rule: "each case is one option plugin with an argument vector from its accepted grammar (1-4 addresses, masks /1-/32, MTU 68-65535, durations, 1-4 domains with labels up to 63 bytes, 1-4 routes incl. /0 and /32, tftp/http/https/ftp URLs with and without params), hosted alone in a fresh server process, and 48 requests (DISCOVER/REQUEST or SOLICIT/REQUEST/RENEW/INFORMATION-REQUEST; option 55 / ORO = random subsets of the relevant codes in random order, or absent; option 116 present or not; yiaddr assigned by an earlier handler or not; option 51 already set or not). Differential oracle: reply with the plugin vs reply of the same chain without it must differ exactly by the table in model/opts.go (value encoded independently from the RFCs, present once, untouched otherwise, chain continues/stops/drops as stated). Non-trivial = every (configuration, request) pair evaluated; distinct by (plugin, args, request list, flags)",
 		assumptions: assume("argument values outside the wire range (MTU > 65535, durations >= 2^32 s) are outside 'in-range' and not generated", "request lists are sets (no duplicate codes); an empty option 55 is not generated", "nbp ends the chain in the code; whether it should is not part of the statement and is not asserted"),
-		runs:        []runSpec{{engine: "opt", qBatches: 16, qCases: 30, tBatches: 64, tCases: 600}},
+		runs:        []runSpec{{engine: "opt", qBatches: 16, qCases: 30, tBatches: 64, tCases: 600}, wireVarRun()},
 		guards:      []guard{{"opt.configs.ipv6only", 3, "ipv6only configurations"}, {"opt.configs.autoconfigure", 3, "autoconfigure"}, {"opt.configs.dns", 3, "dns"}, {"opt.configs.lease_time", 3, "lease_time"}},
 	},
 	"C18": {
